@@ -1,4 +1,370 @@
-import KatdalModel.Model.ApplyCal
+/-
+  C13 — Applying calibration: composition, invalid-gain handling and invertibility.
+
+  "With calibration applied, each visibility equals the stored visibility multiplied by the product,
+   over the selected calibration products, of correction(first input) times the conjugate of
+   correction(second input) at that dump and channel, each weight is divided by the squared magnitude
+   of that factor and flags are unchanged; wherever the factor is not a number, as results from
+   missing, zero or invalid solutions, the visibility is left as stored, its weight becomes zero and
+   the postproc flag is raised, so such solutions never turn a finite stored value into NaN.  Each
+   product's corrections are mapped onto the data channels by that product's own channelisation, the
+   result does not depend on chunking or on which subset is loaded, and data corrupted by known
+   per-input gains, delays and bandpasses are restored to within single-precision rounding when the
+   same solutions are supplied at every dump."
+
+  Model: KatdalModel/Model/ApplyCal.lean (mirror of `calc_correction`, `calc_correction_per_corrprod`,
+  `_correction_block`, the three numba kernels).  Spec: `specFactor` / `specByLabel` / `specArray`.
+  Scalars: `S` with an algebra `A : CAlg S F`; the laws used are listed in `CAlg.Lawful`
+  (commutative monoid with a multiplicative conjugation) and hold for `Scalar K = nan | val x` over
+  every field `K` with an involutive ring conjugation (`scalar_lawful`).  IEEE rounding is not
+  modelled: "within single-precision rounding" is measured by the correspondence harness.
+-/
+import KatdalModel.Lemmas.ApplyCalAlg
+import KatdalModel.Lemmas.ApplyCalCalc
+import KatdalModel.Lemmas.ApplyCalInterp
+open Np ApplyCal
+
+set_option linter.unusedSectionVars false
+
 namespace C13
-theorem placeholder : True := trivial
+
+/-! ### a concrete configuration used by the non-vacuity examples:
+    2 correlation products over inputs {"a","b"}, two products (one per-channel, one broadcast),
+    2 dumps, 3 channels, scalars `Scalar Int` with trivial conjugation -/
+
+def exOps : KOps Int Int :=
+  { star := id, normSq := fun x => x * x, abs := fun x => x.natAbs, angle := fun _ => 0,
+    polar := fun m _ => m, divReal := fun x r => x / r, cis := fun _ => 1 }
+
+local instance : Inv Int := ⟨fun x => 1 / x⟩
+
+def exA : CAlg (Scalar Int) Int := Scalar.alg exOps
+
+def exParams : Params (Scalar Int) :=
+  { inputs := ["a", "b"], idx1 := [0, 0], idx2 := [1, 0],
+    prods := [
+      { name := "l1.B", cmap := .direct,
+        corr := [[[.val 2, .val 3, .nan], [.val 2, .val 3, .val 5]],
+                 [[.val 7, .val 1, .val 1], [.val 7, .val 1, .val 1]]] },
+      { name := "l1.G", cmap := .broadcast,
+        corr := [[[.val 10], [.val 20]], [[.val 1], [.nan]]] }] }
+
+/-! ### composition -/
+
+/-- **c13_composition** — for every set and order of cal products (any `Params` that is well-formed:
+    each product holds a correction vector of 1 / all data / mapped channels for every input and
+    dump), every correlation-product list, dump `t` and channel range `[f0, f1)`:
+    `calc_correction_per_corrprod` does not raise and its entry at `(f, b)` is
+    `∏_p c_p(in₁(b), t, f) · conj c_p(in₂(b), t, f)`. -/
+theorem c13_composition {S F : Type} (A : CAlg S F) (L : A.Lawful) (P : Params S) (nT nF t f0 f1 : Nat)
+    (hwf : wfParams P nT nF = true) (ht : t < nT) (hf : f0 ≤ f1) (hF : f1 ≤ nF) :
+    perCorrprod A P t f0 f1 = .ok ((List.range' f0 (f1 - f0)).map (specRow A P t)) := by
+  rw [perCorrprod_eq A P nT nF t f0 f1 hwf ht hf hF]
+  have : mirrorRow A P t = specRow A P t := funext (mirrorRow_eq_specRow A L P t)
+  rw [this]
+
+example : wfParams exParams 2 3 = true := by decide
+example : perCorrprod exA exParams 0 1 3
+    = .ok [[.val (3 * 10 * (1 * 1)), .val (3 * 10 * (3 * 10))], [.nan, .nan]] := by decide
+
+/-- the laws hold for `Scalar K` over any field with an involutive ring conjugation -/
+theorem c13_scalar_lawful {K F : Type} [Field K] [StarRing K] [DecidableEq K] [Zero F] (o : KOps K F) :
+    (Scalar.alg (fieldOps o)).Lawful := scalar_lawful o
+
+/-- **c13_composition_by_label** — the same through `calc_correction`'s set-up (sorted input list,
+    `inputs.index` lookups, sensors fetched per sorted input, dict of products): the row at `(t, f)`
+    lists, for every correlation product `(l₁, l₂)` in the caller's order, the product over the applied
+    cal products of `c_p(l₁) · conj c_p(l₂)` where `c_p(l)` is looked up *by label*. -/
+theorem c13_composition_by_label {S F : Type} [Sub F] [Neg F] [Zero F] [LT F] [DecidableLT F]
+    (A : CAlg S F) (sensors : String → String → Option (List (List S)))
+    (corrprods : List (String × String)) (calProducts : List String) (dataFreqs : List F)
+    (allCalFreqs : String → Option (List F)) (atol : F) (skip : Bool) (P : Params S)
+    (h : calcCorrection sensors corrprods calProducts dataFreqs allCalFreqs atol skip = .ok P) (t f : Nat) :
+    specRow A P t f = corrprods.map fun cp =>
+      specByLabel A sensors (P.prods.map fun p => (p.name, p.cmap)) cp.1 cp.2 t f := by
+  unfold calcCorrection at h
+  cases hr : productLoop sensors (sortedInputs corrprods) dataFreqs allCalFreqs atol skip calProducts [] none with
+  | error e => simp [hr, bind, Except.bind] at h
+  | ok r =>
+    simp only [hr, bind, Except.bind, pure, Except.pure, Except.ok.injEq] at h
+    subst h
+    have hinv := productLoop_inv sensors (sortedInputs corrprods) dataFreqs allCalFreqs atol skip
+      calProducts [] none r ⟨by simp, by simp⟩ hr
+    have hfetch : ∀ p ∈ lateBind r.2 r.1, fetchSensors sensors p.name (sortedInputs corrprods) = some p.corr := by
+      intro p hp
+      have hm : (p.name, p.corr) ∈ (lateBind r.2 r.1).map (fun p => (p.name, p.corr)) :=
+        List.mem_map_of_mem (f := fun p => (p.name, p.corr)) hp
+      rw [lateBind_name_corr] at hm
+      simp only [List.mem_map, Prod.mk.injEq] at hm
+      obtain ⟨q, hq, hn, hc⟩ := hm
+      rw [← hn, ← hc]
+      exact productOf_fetch sensors _ dataFreqs allCalFreqs atol (hinv.1 q hq)
+    simp only [specRow, mkParams, zip_map_pair, List.map_map]
+    apply List.map_congr_left
+    intro cp hcp
+    simp only [Function.comp, specFactor, specByLabel]
+    exact specFactor_eq_byLabel A sensors _ cp.1 cp.2
+      (mem_sortedInputs.mpr ⟨cp, hcp, Or.inl rfl⟩) (mem_sortedInputs.mpr ⟨cp, hcp, Or.inr rfl⟩) t f _ _ hfetch
+
+/-- **c13_product_order** — the factor does not depend on the order in which the cal products are
+    listed -/
+theorem c13_product_order {S F : Type} (A : CAlg S F) (L : A.Lawful) {ps qs : List (Product S)}
+    (h : ps.Perm qs) (i1 i2 t f : Nat) : specFactor A ps i1 i2 t f = specFactor A qs i1 i2 t f :=
+  specFactor_perm A L h i1 i2 t f
+
+example : specFactor exA exParams.prods 0 1 0 1 = specFactor exA exParams.prods.reverse 0 1 0 1 := by decide
+
+/-! ### kernels -/
+
+/-- **c13_kernels (vis)** — multiplied iff the factor is not NaN, else left as stored -/
+theorem c13_kernels_vis {S F : Type} (A : CAlg S F) (d c : S) :
+    applyVis1 A d c = if A.isNan c = true then d else A.mul d c := by
+  unfold applyVis1
+  cases A.isNan c <;> simp
+
+/-- **c13_kernels (weights)** — the code's guard is `|c|² > 0` (false for NaN): divided iff so, else 0 -/
+theorem c13_kernels_weights {S F : Type} [Div F] [Zero F] [LT F] [DecidableLT F] (A : CAlg S F) (w : F) (c : S) :
+    applyWeight1 A w c = match A.normSq c with
+      | some n => if 0 < n then w / n else 0
+      | none => 0 := rfl
+
+/-- in the exact algebra: NaN factor ⇒ weight 0; number `z` ⇒ `w / N(z)` iff `N(z) > 0` -/
+theorem c13_kernels_weights_scalar {K F : Type} [Mul K] [One K] [Inv K] [Zero K] [DecidableEq K]
+    [Div F] [Zero F] [LT F] [DecidableLT F] (o : KOps K F) (w : F) :
+    applyWeight1 (Scalar.alg o) w .nan = 0 ∧
+    ∀ z, applyWeight1 (Scalar.alg o) w (.val z) = if 0 < o.normSq z then w / o.normSq z else 0 :=
+  ⟨rfl, fun _ => rfl⟩
+
+/-- **c13_kernels (flags)** — bit `postproc` is raised iff the factor is NaN; every other bit is
+    unchanged -/
+theorem c13_kernels_flags {S F : Type} (A : CAlg S F) (fl : Nat) (c : S) (i : Nat) :
+    (applyFlag1 A fl c).testBit i
+      = (fl.testBit i || (A.isNan c && decide (i = Tables.flagPostprocBit))) := by
+  unfold applyFlag1
+  have hp : Tables.flagPostproc = 2 ^ Tables.flagPostprocBit := by decide
+  cases A.isNan c
+  · simp
+  · simp only [if_true, Nat.testBit_or, hp, Nat.testBit_two_pow, Bool.true_and]
+    congr 2
+    exact propext eq_comm
+
+example : applyFlag1 exA 33 .nan = 161 ∧ applyFlag1 exA 33 (.val 2) = 33 := by decide
+
+/-- the three nested loops of each kernel act element by element -/
+theorem c13_kernels_elementwise {α β γ : Type} (k : α → β → γ) (d : List (List (List α)))
+    (c : List (List (List β))) (i j l : Nat) (x : α) (y : β)
+    (hd : ∃ p r, d[i]? = some p ∧ p[j]? = some r ∧ r[l]? = some x)
+    (hc : ∃ p r, c[i]? = some p ∧ p[j]? = some r ∧ r[l]? = some y) :
+    ∃ p r, (zip3 k d c)[i]? = some p ∧ p[j]? = some r ∧ r[l]? = some (k x y) := by
+  obtain ⟨p1, r1, h1, h2, h3⟩ := hd
+  obtain ⟨p2, r2, g1, g2, g3⟩ := hc
+  refine ⟨List.zipWith (List.zipWith k) p1 p2, List.zipWith k r1 r2, ?_, ?_, ?_⟩
+  · simp [zip3, List.getElem?_zipWith, h1, g1]
+  · simp [List.getElem?_zipWith, h2, g2]
+  · simp [List.getElem?_zipWith, h3, g3]
+
+/-- **c13_no_nan_from_invalid** — a NaN factor leaves the stored value untouched … -/
+theorem c13_no_nan_from_invalid {S F : Type} (A : CAlg S F) (d c : S) (h : A.isNan c = true) :
+    applyVis1 A d c = d := by
+  simp [applyVis1, h]
+
+/-- … and in exact arithmetic a stored number never becomes NaN, whatever the factor is -/
+theorem c13_no_nan_from_invalid_scalar {K F : Type} [Mul K] [One K] [Inv K] [Zero K] [DecidableEq K] [Zero F]
+    (o : KOps K F) (x : K) (c : Scalar K) : ∃ y, applyVis1 (Scalar.alg o) (.val x) c = .val y := by
+  cases c with
+  | nan => exact ⟨x, rfl⟩
+  | val z => exact ⟨x * z, rfl⟩
+
+example : applyVis1 exA (.val 5) .nan = .val 5 ∧ applyVis1 exA (.val 5) (.val 3) = .val 15 := by decide
+
+/-! ### channel maps -/
+
+section chan
+variable {F : Type} [Field F] [LinearOrder F]
+
+/-- **c13_channel_map (choice)** — the map installed for a product with `n` correction channels -/
+theorem c13_channel_map_choice (atol : F) (n : Nat) (dataFreqs calFreqs : List F) :
+    (n = 1 → chooseMap atol n dataFreqs calFreqs = .broadcast) ∧
+    (n ≠ 1 → n = dataFreqs.length →
+      (calFreqs.length ≠ dataFreqs.length ∨ allclose atol calFreqs dataFreqs = true) →
+      chooseMap atol n dataFreqs calFreqs = .direct) ∧
+    (n ≠ 1 → ¬ (n = dataFreqs.length ∧
+        (calFreqs.length ≠ dataFreqs.length ∨ allclose atol calFreqs dataFreqs = true)) →
+      chooseMap atol n dataFreqs calFreqs = .expand (expandMap dataFreqs calFreqs)) := by
+  refine ⟨fun h => by simp [chooseMap, h], fun h1 h2 h3 => ?_, fun h1 h2 => ?_⟩
+  · simp only [chooseMap, h1, if_false]
+    rw [if_pos ⟨h2, h3⟩]
+  · simp only [chooseMap, h1, if_false]
+    rw [if_neg h2]
+
+/-- **c13_channel_map (nearest channel)** — entry `k` of the `expand` table is the *first* cal channel
+    whose frequency is nearest to data channel `k` -/
+theorem c13_channel_map_nearest (dataFreqs calFreqs : List F) (hne : calFreqs ≠ []) (k : Nat) (f : F)
+    (hk : dataFreqs[k]? = some f) :
+    ∃ j g, (expandMap dataFreqs calFreqs)[k]? = some j ∧ calFreqs[j]? = some g ∧
+      (∀ g' ∈ calFreqs, absF (f - g) ≤ absF (f - g')) ∧
+      (∀ j' g', j' < j → calFreqs[j']? = some g' → absF (f - g) < absF (f - g')) := by
+  have hne' : calFreqs.map (fun g => absF (f - g)) ≠ [] := by simpa using hne
+  obtain ⟨m, hm, hmin, hstrict⟩ := argminFirst_spec _ hne'
+  rw [List.getElem?_map] at hm
+  cases hg : calFreqs[argminFirst (calFreqs.map fun g => absF (f - g))]? with
+  | none => simp [hg] at hm
+  | some g =>
+    simp only [hg, Option.map_some, Option.some.injEq] at hm
+    subst hm
+    refine ⟨_, g, by simp [expandMap, hk], hg, ?_, ?_⟩
+    · intro g' hg'
+      exact hmin _ (List.mem_map_of_mem (f := fun g => absF (f - g)) hg')
+    · intro j' g' hj' hg'
+      exact hstrict j' hj' _ (by simp [List.getElem?_map, hg'])
+
+end chan
+
+example : expandMap (F := Int) [10, 20, 30, 40] [12, 28, 36] = [0, 0, 1, 2] := by decide
+
+section own
+variable {S F : Type} [Sub F] [Neg F] [Zero F] [LT F] [DecidableLT F]
+
+/-- **c13_channel_map (own channelisation, as intended)** — every product kept by the loop carries the
+    map chosen from *its own* stream's frequencies and *its own* number of channels -/
+theorem c13_channel_map_own (sensors : String → String → Option (List (List S)))
+    (corrprods : List (String × String)) (calProducts : List String) (dataFreqs : List F)
+    (allCalFreqs : String → Option (List F)) (atol : F) (skip : Bool) (P : Params S)
+    (h : calcCorrectionIntended sensors corrprods calProducts dataFreqs allCalFreqs atol skip = .ok P) :
+    ∀ p ∈ P.prods, productOf sensors (sortedInputs corrprods) dataFreqs allCalFreqs atol p.name = some p := by
+  unfold calcCorrectionIntended at h
+  cases hr : productLoop sensors (sortedInputs corrprods) dataFreqs allCalFreqs atol skip calProducts [] none with
+  | error e => simp [hr, bind, Except.bind] at h
+  | ok r =>
+    simp only [hr, bind, Except.bind, pure, Except.pure, Except.ok.injEq] at h
+    subst h
+    exact (productLoop_inv sensors (sortedInputs corrprods) dataFreqs allCalFreqs atol skip
+      calProducts [] none r ⟨by simp, by simp⟩ hr).1
+
+/-- **c13_channel_map_partial** — the code as written (nearest-channel tables late-bound through the
+    closure variable `expand`) installs every product's own map *provided all products that need a
+    nearest-channel table need the same one* (e.g. at most one cal stream whose channelisation
+    differs from the data). -/
+theorem c13_channel_map_partial (sensors : String → String → Option (List (List S)))
+    (corrprods : List (String × String)) (calProducts : List String) (dataFreqs : List F)
+    (allCalFreqs : String → Option (List F)) (atol : F) (skip : Bool) (P : Params S)
+    (h : calcCorrectionIntended sensors corrprods calProducts dataFreqs allCalFreqs atol skip = .ok P)
+    (hone : ∀ p ∈ P.prods, ∀ q ∈ P.prods, ∀ e1 e2, p.cmap = .expand e1 → q.cmap = .expand e2 → e1 = e2) :
+    calcCorrection sensors corrprods calProducts dataFreqs allCalFreqs atol skip = .ok P := by
+  unfold calcCorrectionIntended at h
+  unfold calcCorrection
+  cases hr : productLoop sensors (sortedInputs corrprods) dataFreqs allCalFreqs atol skip calProducts [] none with
+  | error e => simp [hr, bind, Except.bind] at h
+  | ok r =>
+    simp only [hr, bind, Except.bind, pure, Except.pure, Except.ok.injEq] at h ⊢
+    subst h
+    have hinv := productLoop_inv sensors (sortedInputs corrprods) dataFreqs allCalFreqs atol skip
+      calProducts [] none r ⟨by simp, by simp⟩ hr
+    rw [lateBind_eq_self]
+    intro e he p hp e' hpe
+    obtain ⟨q, hq, hqe⟩ := hinv.2 e he
+    exact hone p hp q hq e' e hpe hqe
+
+end own
+
+/-- the witness: two cal streams whose channelisations both differ from the data's (2 and 3 channels
+    against 4 data channels), one product of each -/
+def witnessSensors : String → String → Option (List (List Nat))
+  | "l1.G", _ => some [[1, 2]]
+  | "l2.G", _ => some [[1, 2, 3]]
+  | _, _ => none
+
+def witnessFreqs : String → Option (List Int)
+  | "l1" => some [10, 30]
+  | "l2" => some [10, 20, 30]
+  | _ => none
+
+/-- **c13_channel_map_full_is_false** — without that proviso the statement "each product's corrections
+    are mapped by that product's own channelisation" fails for the code as written: the first
+    product ends up with the second product's table. -/
+theorem c13_channel_map_full_is_false :
+    (calcCorrection witnessSensors [("a", "a")] ["l1.G", "l2.G"] [10, 20, 30, 40] witnessFreqs (0 : Int) false).map
+        (fun P => P.prods.map (·.cmap))
+      ≠ (calcCorrectionIntended witnessSensors [("a", "a")] ["l1.G", "l2.G"] [10, 20, 30, 40] witnessFreqs (0 : Int)
+          false).map (fun P => P.prods.map (·.cmap)) := by decide
+
+example : (calcCorrectionIntended witnessSensors [("a", "a")] ["l1.G", "l2.G"] [10, 20, 30, 40] witnessFreqs (0 : Int)
+    false).map (fun P => P.prods.map (·.cmap)) = .ok [.expand [0, 0, 1, 1], .expand [0, 1, 2, 2]] := by decide
+
+/-! ### chunking -/
+
+/-- **c13_chunk_invariant** — for any chunking of the time and frequency axes (chunk sizes `ct`, `cf`),
+    the array assembled from the per-chunk blocks (each computed from its absolute location) is the
+    pointwise function `specArray`; so is any single block, wherever it lies. -/
+theorem c13_chunk_invariant {S F : Type} (A : CAlg S F) (L : A.Lawful) (P : Params S) (nT nF : Nat)
+    (hwf : wfParams P nT nF = true) (ct cf : List Nat) (hT : ct.sum ≤ nT) (hF : cf.sum ≤ nF) :
+    assemble A P cf 0 ct = .ok (specArray A P 0 ct.sum 0 cf.sum) := by
+  have := assemble_eq A P nT nF cf hwf hF ct 0 (by omega)
+  rw [this, mirrorArray_eq_specArray A L]
+  simp
+
+theorem c13_block_pointwise {S F : Type} (A : CAlg S F) (L : A.Lawful) (P : Params S) (nT nF t0 t1 f0 f1 : Nat)
+    (hwf : wfParams P nT nF = true) (ht : t1 ≤ nT) (hf : f0 ≤ f1) (hF : f1 ≤ nF) :
+    block A P t0 t1 f0 f1 = .ok (specArray A P t0 t1 f0 f1) := by
+  rw [block_eq A P nT nF t0 t1 f0 f1 hwf ht hf hF, mirrorArray_eq_specArray A L]
+
+/-- two chunkings of the same extent give the same array -/
+theorem c13_chunk_independent {S F : Type} (A : CAlg S F) (L : A.Lawful) (P : Params S) (nT nF : Nat)
+    (hwf : wfParams P nT nF = true) (ct cf ct' cf' : List Nat) (hT : ct.sum ≤ nT) (hF : cf.sum ≤ nF)
+    (hT' : ct'.sum = ct.sum) (hF' : cf'.sum = cf.sum) :
+    assemble A P cf 0 ct = assemble A P cf' 0 ct' := by
+  rw [c13_chunk_invariant A L P nT nF hwf ct cf hT hF,
+    c13_chunk_invariant A L P nT nF hwf ct' cf' (by omega) (by omega), hT', hF']
+
+example : assemble exA exParams [1, 2] 0 [2] = assemble exA exParams [3] 0 [1, 1] := by decide
+example : assemble exA exParams [1, 2] 0 [2] = .ok (specArray exA exParams 0 2 0 3) := by decide
+
+/-! ### invertibility -/
+
+section inv
+variable {K F : Type} [Field K] [StarRing K] [DecidableEq K] [Zero F]
+
+/-- the factor the model builds when every correction is the reciprocal of the corresponding gain -/
+def factorOf (o : KOps K F) (gs : List (K × K)) : Scalar K :=
+  gs.foldl (fun acc g => (Scalar.alg (fieldOps o)).mul acc
+    ((Scalar.alg (fieldOps o)).mul ((Scalar.alg (fieldOps o)).inv (.val g.1))
+      ((Scalar.alg (fieldOps o)).conj ((Scalar.alg (fieldOps o)).inv (.val g.2))))) (Scalar.alg (fieldOps o)).one
+
+theorem factorOf_eq (o : KOps K F) (gs : List (K × K)) (h : ∀ g ∈ gs, g.1 ≠ 0 ∧ g.2 ≠ 0) :
+    factorOf o gs = .val (inverseFactor gs) := by
+  unfold factorOf inverseFactor
+  have key : ∀ (l : List (K × K)) (c : K), (∀ g ∈ l, g.1 ≠ 0 ∧ g.2 ≠ 0) →
+      l.foldl (fun acc g => (Scalar.alg (fieldOps o)).mul acc
+        ((Scalar.alg (fieldOps o)).mul ((Scalar.alg (fieldOps o)).inv (.val g.1))
+          ((Scalar.alg (fieldOps o)).conj ((Scalar.alg (fieldOps o)).inv (.val g.2))))) (.val c)
+      = .val (l.foldl (fun acc g => acc * (g.1⁻¹ * star g.2⁻¹)) c) := by
+    intro l
+    induction l with
+    | nil => intro c _; rfl
+    | cons g l ih =>
+      intro c hl
+      obtain ⟨h1, h2⟩ := hl g (List.mem_cons_self ..)
+      simp only [List.foldl_cons]
+      have : (Scalar.alg (fieldOps o)).mul (.val c)
+          ((Scalar.alg (fieldOps o)).mul ((Scalar.alg (fieldOps o)).inv (.val g.1))
+            ((Scalar.alg (fieldOps o)).conj ((Scalar.alg (fieldOps o)).inv (.val g.2))))
+          = .val (c * (g.1⁻¹ * star g.2⁻¹)) := by
+        simp [Scalar.alg, Scalar.inv, Scalar.mul, Scalar.map, fieldOps, h1, h2]
+      rw [this]
+      exact ih _ (fun g' hg' => hl g' (List.mem_cons_of_mem _ hg'))
+  exact key gs 1 h
+
+/-- **c13_invertible** — a visibility `v` corrupted by per-input gains `g₁ · conj g₂` of any number of
+    effects (gain, delay, bandpass …) and then corrected with the factor built from the reciprocal
+    gains is `v` again, exactly. -/
+theorem c13_invertible (o : KOps K F) (v : K) (gs : List (K × K)) (h : ∀ g ∈ gs, g.1 ≠ 0 ∧ g.2 ≠ 0) :
+    applyVis1 (Scalar.alg (fieldOps o)) (.val (corruptBy v gs)) (factorOf o gs) = .val v := by
+  rw [factorOf_eq o gs h]
+  have := corrupt_inverse gs h v 1
+  simp only [applyVis1, Scalar.alg, Scalar.isNan, Scalar.mul, Bool.not_false, if_true]
+  unfold corruptBy inverseFactor
+  rw [this, mul_one]
+
+end inv
+
 end C13
